@@ -50,6 +50,10 @@ def main(argv):
         # the harness does not compile against the current tree: a broken check, never a VIOLATION
         print("BROKEN-CHECK property=%s: harness build failed\n%s" % (prop, e))
         return 2
+    except Exception:
+        # an internal failure of the machinery (a tool timed out, a file is missing): a broken check, never a VIOLATION
+        print("BROKEN-CHECK property=%s: internal error of the check\n%s" % (prop, traceback.format_exc()[-3000:]))
+        return 2
     finally:
         ctx.cleanup()
 
